@@ -364,6 +364,16 @@ func (c *caseSpec) archive() []byte {
 		entries = []rawEntry{{[]byte("a/"), kindDir, nil}, {c.name, kindFile, payload}}
 	case shapeAfterSymlink:
 		entries = []rawEntry{{[]byte("a"), kindSymlink, []byte("../..")}, {c.name, kindFile, payload}}
+	case shapeAfterSelf:
+		entries = []rawEntry{{[]byte("./"), kindDir, nil}, {c.name, kindFile, payload}}
+	case shapeAfterSelf2:
+		entries = []rawEntry{{[]byte("a/../"), kindDir, nil}, {c.name, kindFile, payload}}
+	case shapeFifo:
+		entries = []rawEntry{{c.name, kindFifo, nil}}
+	case shapeCharDev:
+		entries = []rawEntry{{c.name, kindCharDev, nil}}
+	case shapeSocket:
+		entries = []rawEntry{{c.name, kindSocket, nil}}
 	case shapeLinkChain:
 		entries = []rawEntry{{[]byte("C:/ "), kindSymlink, []byte("..")}, {[]byte("C:/ /a"), kindSymlink, []byte("..")}, {c.name, kindFile, payload}}
 	}
@@ -761,7 +771,7 @@ func (s *sandbox) runCase(c *caseSpec) (res caseResult, engineErr error) {
 	}
 	// clause (3)
 	// (in the two-entry shapes an earlier entry may legitimately fail first with another kind: there only "no failure" counts)
-	twoEntries := c.Shape == shapeAfterDir || c.Shape == shapeAfterSymlink || c.Shape == shapeLinkChain
+	twoEntries := c.Shape == shapeAfterDir || c.Shape == shapeAfterSymlink || c.Shape == shapeLinkChain || c.Shape == shapeAfterSelf || c.Shape == shapeAfterSelf2
 	if res.refOut && res.ErrKind != "malicious" && (res.ErrKind == "ok" || !twoEntries) {
 		result := "other-error"
 		if res.ErrKind == "ok" {
